@@ -294,6 +294,8 @@ class Engine(InterpMixin, AttrMixin):
         scope.vars = m.ns
         old = _cur[0]
         _cur[0] = self
+        saved_events = self.events
+        self.events = []  # effects of module initialisation are not effects of the function under contract
         try:
             self.exec_block(m.tree.body, scope)
         except BaseException:
@@ -301,6 +303,8 @@ class Engine(InterpMixin, AttrMixin):
             raise
         finally:
             _cur[0] = old
+            self.module_events = getattr(self, "module_events", []) + self.events
+            self.events = saved_events
         return m
 
     def resolve(self, dotted):
